@@ -21,6 +21,7 @@ pub struct Stats {
     pub block_level: AtomicU64,
     pub huge_symbols: AtomicU64,
     pub all_kprime: AtomicU64,
+    pub row_floods: AtomicU64,
     pub all_kprime_solved: AtomicU64,
 }
 
@@ -317,11 +318,65 @@ pub fn run_block_case(ctx: &Ctx, c: &Case, replay: J, st: &Stats) {
     }
 }
 
+/// Row flood: one block-level decode call that hands over more than 2^16 distinct symbols of a small
+/// block (the solver's row indices exceed 16 bits). Some(block bytes) is the only admissible answer
+/// unless the rank oracle says the set is undecodable.
+pub fn run_flood_case(ctx: &Ctx, seed: u64, idx: u64, st: &Stats) {
+    let mut rng = Rng::derive(seed, 0x0105, idx);
+    let K = *rng.pick(&[5usize, 10, 11, 13, 26, 55, 101]);
+    let T = *rng.pick(&[1usize, 2, 3, 8]);
+    let kept = match rng.below(3) {
+        0 => 0,
+        1 => K - 1,
+        _ => rng.below(K as u64) as usize,
+    };
+    let total = 65_536 - 60 + rng.below(160) as usize;
+    let data = rng.bytes(K * T);
+    let start = if rng.chance(1, 2) { 0 } else { rng.below((1 << 24) - K as u64 - total as u64 - 1) as u32 };
+    let threshold = *rng.pick(&THRESHOLDS);
+    let replay = J::obj(vec![("flood", J::i(1)), ("seed", J::i(seed)), ("idx", J::i(idx)), ("K", J::i(K)), ("T", J::i(T)), ("kept_source", J::i(kept)), ("symbols_in_one_call", J::i(total)), ("first_repair_index", J::i(start)), ("sparse_threshold", J::i(threshold))]);
+    let sig = format!("C01 row-flood K={K} T={T} kept={kept} total={total} start={start} thr={threshold}");
+    let r = guarded(|| {
+        let cfg = raptorq::ObjectTransmissionInformation::new((K * T) as u64, T as u16, 1, 1, 1);
+        let enc = raptorq::SourceBlockEncoder::new(0, &cfg, &data);
+        let mut pk: Vec<EncodingPacket> = enc.source_packets().into_iter().take(kept).collect();
+        pk.extend(enc.repair_packets(start, (total - kept) as u32));
+        let mut d = SourceBlockDecoder::new(0, &cfg, (K * T) as u64);
+        d.verif_set_sparse_threshold(threshold);
+        // a few symbols first, the flood in one call
+        let rest = pk.split_off(rng.below(4) as usize);
+        let a = d.decode(pk);
+        let b = d.decode(rest);
+        (a, b)
+    });
+    st.row_floods.fetch_add(1, Relaxed);
+    match r {
+        Err(m) => ctx.violation(sig, format!("K={K}: SourceBlockDecoder panicked when {total} distinct encoder-produced symbols were delivered in one call: {}", short(&m, 140)), replay),
+        Ok((a, b)) => {
+            if a.is_some() {
+                ctx.violation(sig.clone(), format!("K={K}: decoder answered with fewer than 4 symbols"), replay.clone());
+            }
+            match b {
+                Some(v) if v == data => {}
+                Some(v) => ctx.violation(sig, format!("K={K}, T={T}: decoding {total} distinct symbols delivered in one call returned wrong bytes (first difference at {:?})", first_diff(&v, &data)), replay),
+                None => ctx.violation(sig, format!("K={K}: {total} distinct symbols (consecutive repair ids from {start}) delivered in one call and the decoder answered None"), replay),
+            }
+        }
+    }
+}
+
 pub fn run(ctx: &Ctx) -> i32 {
     let st = Stats::default();
     if let Some(p) = &ctx.args.replay {
         let j = parse_json(&std::fs::read_to_string(p).expect("replay file")).expect("json");
         let c = j.get("case").unwrap();
+        if c.get("flood").is_some() {
+            ctx.eval(1);
+            run_flood_case(ctx, c.u("seed"), c.u("idx"), &st);
+            ctx.nontrivial(1);
+            ctx.nontrivial(2);
+            return ctx.finish("replay of one recorded row-flood case", &[], vec![]);
+        }
         let (seed, idx, fam, mk, mt) = (c.u("seed"), c.u("idx"), c.u("family"), c.u("max_kt") as usize, c.u("max_t") as usize);
         let case = gen_case(seed, idx, fam, mk, mt);
         ctx.eval(1);
@@ -368,6 +423,16 @@ pub fn run(ctx: &Ctx) -> i32 {
         st.huge_symbols.fetch_add(1, Relaxed);
         ctx.eval(1);
     });
+    // more than 2^16 symbols of one small block in a single decode call
+    if ctx.args.ex("n").is_none() {
+        par_for(ctx.args.pick(24, 400), |i| {
+            if !ctx.too_many_violations() {
+                run_flood_case(ctx, ctx.seed(), i as u64, &st);
+                ctx.eval(1);
+            }
+        });
+    }
+    ctx.cov("row_flood_cases_(about_2^16_symbols_in_one_decode_call)", J::i(st.row_floods.load(Relaxed)));
     // every K' of Table 2, with and without padding symbols, decoded through the solver
     let reps = ctx.args.ex_u64("kprime_reps", ctx.args.pick(1, 6)) as usize;
     let solved_before = st.solved_via_repair.load(Relaxed);
